@@ -210,6 +210,25 @@ func (e *Engine) unop(instr *ssa.UnOp, x Value) Value {
 		if pz, ok := v.(Poison); ok && e.inInit == 0 {
 			panic(e.unsupported("load of poisoned value: " + pz.why))
 		}
+		// unsafe reinterpretation *[]byte <-> *string (zero-copy string/bytes conversions)
+		if sl, ok := v.([]Value); ok {
+			if b, isB := instr.Type().Underlying().(*types.Basic); isB && b.Info()&types.IsString != 0 {
+				ts := make([]*Term, len(sl))
+				for i, x := range sl {
+					ts[i] = x.(*Term)
+				}
+				return mkStrFromTerms(ts)
+			}
+		} else if s, ok := v.(Str); ok {
+			if _, isS := instr.Type().Underlying().(*types.Slice); isS {
+				bs := e.strBytes(s)
+				out := make([]Value, len(bs))
+				for i, b := range bs {
+					out[i] = b
+				}
+				return out
+			}
+		}
 		return v
 	case token.ARROW:
 		return e.chanRecv(x.(*Chan), instr.CommaOk)
